@@ -1205,7 +1205,49 @@ func sliceLitElems(v ssa.Value) []ssa.Value {
 
 // valueOnPath resolves phis along a concrete instruction path: the value a phi
 // takes given the predecessor block the path came through.
+// assumed: hypotheses under which paths are enumerated — a value (typically a call result that flows into a flag
+// variable instead of being branched on) taken to be true or false. Consulted wherever a value is resolved on a path.
+var assumed = map[ssa.Value]bool{}
+
+var (
+	ssaTrue  = ssa.NewConst(constant.MakeBool(true), types.Typ[types.Bool])
+	ssaFalse = ssa.NewConst(constant.MakeBool(false), types.Typ[types.Bool])
+)
+
+// withAssumption runs f with v taken to be b.
+func withAssumption(v ssa.Value, b bool, f func()) {
+	old, had := assumed[v]
+	assumed[v] = b
+	f()
+	if had {
+		assumed[v] = old
+	} else {
+		delete(assumed, v)
+	}
+}
+
 func valueOnPath(v ssa.Value, path []ssa.Instruction) ssa.Value {
+	r := valueOnPath0(v, path)
+	if len(assumed) > 0 {
+		if nv, neg := stripNot(r); neg {
+			if b, ok := assumed[nv]; ok {
+				if b {
+					return ssaFalse
+				}
+				return ssaTrue
+			}
+		}
+		if b, ok := assumed[r]; ok {
+			if b {
+				return ssaTrue
+			}
+			return ssaFalse
+		}
+	}
+	return r
+}
+
+func valueOnPath0(v ssa.Value, path []ssa.Instruction) ssa.Value {
 	for depth := 0; depth < 8; depth++ {
 		phi, ok := v.(*ssa.Phi)
 		if !ok {
